@@ -159,7 +159,7 @@ impl Check for C09 {
     fn cases(&self, tier: Tier) -> u64 {
         match tier {
             Tier::Quick => 480,
-            Tier::Thorough => 9600,
+            Tier::Thorough => 24000,
         }
     }
     fn gen(&self, seed: u64, i: u64, tier: Tier) -> Value {
@@ -186,11 +186,34 @@ impl Check for C09 {
         let mut items: Vec<Item> = vec![];
         let mut edges = vec![];
         let is_enum: Vec<bool> = (0..n).map(|k| !dag.iter().any(|e| e.0 == k) && r.chance(1, 4)).collect();
+        // some inner nodes are enums whose variants CARRY their dependencies (`Variant(Dep)`); the
+        // pinned tool renders such an enum as a plain list of literals, so these edges are not part
+        // of the ground truth - a tool that starts rendering payload schemas has to order them too
+        let mut pe = r.split("payload-enums");
+        let payload_enum: Vec<bool> = (0..n).map(|k| !is_enum[k] && dag.iter().any(|e| e.0 == k) && i % 5 == 2 && pe.chance(1, 2)).collect();
         for k in 0..n {
+            if payload_enum[k] {
+                let mut variants: Vec<Variant> = dag
+                    .iter()
+                    .filter(|e| e.0 == k)
+                    .map(|e| Variant {
+                        name: nm.fresh(&mut pe, "variant"),
+                        rename: None,
+                        payload: Some(match pe.below(3) {
+                            0 => Ty::Named(names[e.1].clone()),
+                            1 => Ty::Vec(Box::new(Ty::Named(names[e.1].clone()))),
+                            _ => Ty::Opt(Box::new(Ty::Named(names[e.1].clone()))),
+                        }),
+                    })
+                    .collect();
+                variants.push(Variant { name: nm.fresh(&mut pe, "variant"), rename: None, payload: None });
+                items.push(Item::Enum(EnumDef { name: names[k].clone(), variants, rename_all: None }));
+                continue;
+            }
             if is_enum[k] {
                 items.push(Item::Enum(EnumDef {
                     name: names[k].clone(),
-                    variants: (0..r.range(1, 3)).map(|_| Variant { name: nm.fresh(&mut r, "variant"), rename: None }).collect(),
+                    variants: (0..r.range(1, 3)).map(|_| Variant { name: nm.fresh(&mut r, "variant"), rename: None, payload: None }).collect(),
                     rename_all: None,
                 }));
                 continue;
@@ -251,7 +274,24 @@ impl Check for C09 {
             };
             match how {
                 0 => c.params.push(Param { name: nm.fresh(&mut r, "field"), ty: context(r.below(10) as usize, t, &mut r) }),
-                1 => c.ret = Some(Ty::Res(Box::new(context(r.below(10) as usize, t, &mut r)), "String".into())),
+                1 => {
+                    // the error side of the Result is a project type of its own in a third of the
+                    // cases: analysed, never emitted, and it mentions some of the other types
+                    let mut xr = r.split("error-type");
+                    let err = if (i / 5) % 3 == 1 {
+                        let ename = nm.fresh(&mut xr, "type");
+                        let mut fields = vec![Field { name: nm.fresh(&mut xr, "field"), ty: Ty::Prim("String".into()), public: true, rename: None, skip: false, validate: None }];
+                        for _ in 0..xr.range(1, 2) {
+                            let d = xr.below(n as u64) as usize;
+                            fields.push(Field { name: nm.fresh(&mut xr, "field"), ty: Ty::Named(names[d].clone()), public: true, rename: None, skip: false, validate: None });
+                        }
+                        items.push(Item::Struct(StructDef { name: ename.clone(), fields, rename_all: None, serde: true, qualified_derive: false }));
+                        ename
+                    } else {
+                        "String".to_string()
+                    };
+                    c.ret = Some(Ty::Res(Box::new(context(r.below(10) as usize, t, &mut r)), err));
+                }
                 2 => c.chans.push(Chan { name: nm.fresh(&mut r, "field"), msg: t, rename: None }),
                 _ => {
                     c.params.push(Param { name: nm.fresh(&mut r, "field"), ty: prim(&mut r) });
@@ -509,7 +549,7 @@ impl Check for C09 {
     }
 
     fn rule(&self) -> String {
-        "case = zod-mode project whose serde types form a DAG on 2..6 types (chain, fan-out, shared leaf, diamond, random; stratified), every edge realised through one of 24 constructor contexts (20 tame, stratified; 4 the translator garbles, sampled), types scattered over 1..4 files with random names (so name order vs dependency order varies), roots referenced from parameters / returns / channels / event payloads; generated by 3 (quick) / 6 (thorough) simulated processes with different hash keys and directory orders. Oracle: lexical declaration-before-use over `export const XSchema =` statements, judged only for schema identifiers that are defined somewhere in the file. distinct_nontrivial = distinct (shape, #types, multiset of edge contexts) with at least one edge.".into()
+        "case = zod-mode project whose serde types form a DAG on 2..6 types (chain, fan-out, shared leaf, diamond, random; stratified), every edge realised through one of 24 constructor contexts (20 tame, stratified; 4 the translator garbles, sampled), types scattered over 1..4 files with random names (a tenth of the projects with names in scripts without letter case) (so name order vs dependency order varies), roots referenced from parameters / returns / channels / event payloads; generated by 3 (quick) / 6 (thorough) simulated processes with different hash keys and directory orders. Oracle: lexical declaration-before-use over `export const XSchema =` statements, judged only for schema identifiers that are defined somewhere in the file. distinct_nontrivial = distinct (shape, #types, multiset of edge contexts) with at least one edge.".into()
     }
     fn assumptions(&self) -> Vec<String> {
         vec![
